@@ -79,6 +79,7 @@ func genC08(rc *RunCtx) (*C1, bool) {
 	full := sc.Reply
 	sc.Full = full
 	sc.DeadlinePort = sc.Kind == KSerial && !sc.Flusher && t.Choose(2) == 1
+	sc.WrappedTimeouts = !t.Has("prefix") && t.Choose(3) == 0
 	switch sc.Fault {
 	case FIOErr, FWriteErr, FShortWrite, FWriteDeadlineErr:
 		sc.IOErr = genIOErr(t)
